@@ -85,18 +85,23 @@ class C16(Machine):
             nchar = rng.randint(1, 6)
             mats.append(gen.sequences(rng, labs, nchar, syms, easy=rng.choice([0.5, 0.8, 0.95])))
         steps = []
-        ops = ["score", "score", "score", "score", "down_pass_attr", "down_pass_noattr", "rotate", "reroot", "score_fresh"]
+        ops = ["score", "score", "score", "score", "down_pass_attr", "down_pass_noattr", "rotate", "reroot", "reroot_node", "score_fresh"]
         for _ in range(rng.randint(3, 20)):
             steps.append({"op": rng.choice(ops), "m": rng.randrange(10), "gaps": rng.random() < 0.6,
                           "weights": [rng.randint(0, 3) for _ in range(6)] if rng.random() < 0.3 else None,
                           "bychar": rng.random() < 0.5, "k": rng.randrange(1000), "attr": rng.choice(["state_sets", "ss2"])})
-        return {"config": {"data_type": dt, "labels": labs}, "initial": {"tree": spec, "matrices": mats}, "steps": steps}
+        # "unrooted": the same binary tree drawn the way DendroPy holds unrooted trees, with a trifurcation at the seed node
+        return {"config": {"data_type": dt, "labels": labs, "unrooted": rng.random() < 0.35 and n >= 3},
+                "initial": {"tree": spec, "matrices": mats}, "steps": steps}
 
     def run(self, plan, rec):
         cfg = plan["config"]
         dt = cfg["data_type"]
         ns = dendropy.TaxonNamespace(cfg["labels"])
         tree = gen.build_tree(dendropy, plan["initial"]["tree"], ns, is_rooted=True)
+        if cfg.get("unrooted"):
+            tree.is_rooted = False
+            tree.collapse_basal_bifurcation(set_as_unrooted_tree=True)
         cls = dendropy.DnaCharacterMatrix if dt == "dna" else dendropy.StandardCharacterMatrix
         rows_list = plan["initial"]["matrices"]
         mats = [cls.from_dict(r, taxon_namespace=ns) for r in rows_list]
@@ -113,7 +118,7 @@ class C16(Machine):
                 if op in ("score", "score_fresh", "down_pass_attr", "down_pass_noattr"):
                     target = tree
                     if op == "score_fresh":
-                        target = gen.build_tree(dendropy, _spec_of(tree), ns, is_rooted=True)
+                        target = gen.build_tree(dendropy, _spec_of(tree), ns, is_rooted=tree.is_rooted)
                     bychar = [] if st["bychar"] else None
                     if op in ("score", "score_fresh"):
                         got = parsimony.parsimony_score(target, mats[j], gaps_as_missing=st["gaps"], weights=weights,
@@ -145,6 +150,13 @@ class C16(Machine):
                     ch.reverse()
                     nd.set_child_nodes(ch)
                     rec.ev("rotate")
+                elif op == "reroot_node":
+                    # root position on an existing node: the new seed has three children, the old bifurcating seed is suppressed
+                    cands = [nd for nd in rawtree.raw_nodes(tree) if nd._parent_node is not None and len(nd._child_nodes) == 2]
+                    if cands:
+                        tree.reroot_at_node(cands[st["k"] % len(cands)], update_bipartitions=False)
+                        rec.ev("reroot_node")
+                        rec.probe("rerooted_at_node")
                 elif op == "reroot":
                     edges = [nd.edge for nd in rawtree.raw_nodes(tree) if nd._parent_node is not None and nd._child_nodes
                              and nd._parent_node is not tree.seed_node]
